@@ -82,6 +82,7 @@ struct BodyWalker {
     attrs: Vec<Value>,
     awaits: Vec<Value>,
     span_scopes: Vec<Value>,
+    or_guard_arms: Vec<Value>,
     closure_depth: usize,
 }
 impl BodyWalker {
@@ -95,6 +96,7 @@ impl BodyWalker {
             attrs: vec![],
             awaits: vec![],
             span_scopes: vec![],
+            or_guard_arms: vec![],
             closure_depth: 0,
         }
     }
@@ -255,6 +257,15 @@ impl<'ast> Visit<'ast> for BodyWalker {
         }
         visit::visit_expr_method_call(self, e);
     }
+    fn visit_arm(&mut self, a: &'ast syn::Arm) {
+        // a match arm `P1 | P2 if G => ..` (top-level or-pattern together with a guard): outside the Verus dialect; indexed for D5
+        if let (syn::Pat::Or(po), Some((_, g))) = (&a.pat, &a.guard) {
+            let mut ids = vec![];
+            pat_idents(&a.pat, &mut ids);
+            self.or_guard_arms.push(json!({"pat": rng(po.span()), "guard": rng(g.span()), "binds": ids, "in_closure": self.closure_depth > 0}));
+        }
+        visit::visit_arm(self, a);
+    }
     fn visit_local(&mut self, l: &'ast syn::Local) {
         let mut ids = vec![];
         pat_idents(&l.pat, &mut ids);
@@ -337,6 +348,7 @@ impl Indexer {
             v["body_attrs"] = Value::Array(w.attrs);
             v["awaits"] = Value::Array(w.awaits);
             v["span_scopes"] = Value::Array(w.span_scopes);
+            v["or_guard_arms"] = Value::Array(w.or_guard_arms);
         }
         v
     }
